@@ -234,7 +234,8 @@ func (inst *Instance) applyForeign(name string, f *Foreign) {
 	must(inst.Base.Update(context.Background(), pg))
 }
 
-// idemFlags classifies the repeated reconciles of a run that issued mutating calls.
+// idemFlags classifies the repeated reconciles of a run that issued mutating calls (diagnostics for the
+// label of a failing case only: the verdict is the monitor's, which demands zero calls).
 type idemFlags struct{ noopUpdate, feedbackUpdate, repatch, other bool }
 
 func (a *idemFlags) merge(b idemFlags) {
@@ -708,7 +709,12 @@ type emitter struct {
 }
 
 func (em *emitter) emitWorld(r *u.Rng, origin string, sh shape, w *World, defect string) {
-	_, staleSG := w.Pods[0].Labels["kai.scheduler/subgroup-name"]
+	staleSG := false
+	for _, p := range w.Pods {
+		if _, ok := p.Labels["kai.scheduler/subgroup-name"]; ok {
+			staleSG = true
+		}
+	}
 	desc := fmt.Sprintf("%s shape=%s pods=%d defect=%s cm=%d nodepoolkey=%q forbidden=%v stale-subgroup-label=%v", origin, sh.name, len(w.Pods), defect, w.Cfg.CMState, w.Cfg.NodePoolKey, w.Forbidden, staleSG)
 	for _, check := range []string{"CkGroup", "CkIdem"} {
 		in := newIntern()
@@ -777,16 +783,41 @@ func Run(dir string, seed uint64, n int, tier string) error {
 		em.emitWorld(cr, "corpus", sh, w, "")
 	}
 	{
-		// the witness of C18_idempotent_refuted: a StatefulSet pod without any label
+		// the witness of C18_idempotent_v0_refuted: a StatefulSet pod without any label
 		w := &World{Cfg: Config{QueueKey: queueKey, NodePoolKey: nodePoolKey},
 			Objs: []Obj{{Group: "apps", Version: "v1", Kind: "StatefulSet", Name: "web", UID: "u-sts"}},
 			Pods: []Pod{{Name: "web-0", UID: "u-p0", Owners: []Ref{{"apps", "v1", "StatefulSet", "web", "u-sts"}}}}}
 		em.emitWorld(cr, "corpus-witness", shapes[3], w, "")
-		// the witness of C18_order_independent_refuted / feedback: a pod owned directly by a Workflow
+		// the witness of C18_reconcile_twice_before_repair / C18_annotation_feedback_*: a pod owned directly by a Workflow
 		w2 := &World{Cfg: Config{QueueKey: queueKey, NodePoolKey: nodePoolKey},
 			Objs: []Obj{{Group: "argoproj.io", Version: "v1alpha1", Kind: "Workflow", Name: "wf", UID: "u-wf", Labels: map[string]string{queueKey: "q1"}}},
 			Pods: []Pod{{Name: "step-0", UID: "u-p0", Owners: []Ref{{"argoproj.io", "v1alpha1", "Workflow", "wf", "u-wf"}}}}}
 		em.emitWorld(cr, "corpus-witness", shapes[8], w2, "")
+		// regression inputs of the repairs 3f1c7d2 and 8227120 (theorems C18_stale_subgroup_* and
+		// C18_annotation_feedback_*): every reconcile after the first must be silent for them
+		sts := Obj{Group: "apps", Version: "v1", Kind: "StatefulSet", Name: "web", UID: "u-sts", Labels: map[string]string{queueKey: "team-a"}}
+		stsRef := Ref{"apps", "v1", "StatefulSet", "web", "u-sts"}
+		// a pod that carries a sub-group label although its group has no sub-groups
+		w3 := &World{Cfg: Config{QueueKey: queueKey, NodePoolKey: nodePoolKey, PrioClasses: []string{"train"}},
+			Objs: []Obj{sts},
+			Pods: []Pod{{Name: "web-9", UID: "u-p9", Labels: map[string]string{"kai.scheduler/subgroup-name": "gone"}, Owners: []Ref{stsRef}},
+				{Name: "web-8", UID: "u-p8", Owners: []Ref{stsRef}}}}
+		em.emitWorld(cr, "corpus-regression", shapes[3], w3, "")
+		// a pod whose direct owner the grouper may not GET is its own grouping object
+		w4 := &World{Cfg: Config{QueueKey: queueKey, NodePoolKey: nodePoolKey, PrioClasses: []string{"train"}},
+			Objs: []Obj{sts}, Forbidden: []string{"StatefulSet"},
+			Pods: []Pod{{Name: "web-0", UID: "u-p0", Owners: []Ref{stsRef}}}}
+		em.emitWorld(cr, "corpus-regression", shapes[3], w4, "forbidden-direct")
+		// the skipped owner itself carries a pod-group-name annotation (propagated down to the pod), and so does a plain top owner
+		w5 := &World{Cfg: Config{QueueKey: queueKey, NodePoolKey: nodePoolKey},
+			Objs: []Obj{{Group: "argoproj.io", Version: "v1alpha1", Kind: "Workflow", Name: "wf", UID: "u-wf", Annots: map[string]string{"pod-group-name": "from-workflow", "note": "x"}}},
+			Pods: []Pod{{Name: "step-0", UID: "u-p0", Annots: map[string]string{"user": "carol"}, Owners: []Ref{{"argoproj.io", "v1alpha1", "Workflow", "wf", "u-wf"}}},
+				{Name: "step-1", UID: "u-p1", Annots: map[string]string{"pod-group-name": "given-by-user"}, Owners: []Ref{{"argoproj.io", "v1alpha1", "Workflow", "wf", "u-wf"}}}}}
+		em.emitWorld(cr, "corpus-regression", shapes[8], w5, "")
+		w6 := &World{Cfg: Config{QueueKey: queueKey, NodePoolKey: nodePoolKey},
+			Objs: []Obj{{Group: "apps", Version: "v1", Kind: "StatefulSet", Name: "web", UID: "u-sts", Annots: map[string]string{"pod-group-name": "from-owner"}}},
+			Pods: []Pod{{Name: "web-0", UID: "u-p0", Owners: []Ref{stsRef}}, {Name: "web-1", UID: "u-p1", Labels: map[string]string{"kai.scheduler/subgroup-name": "gone"}, Owners: []Ref{stsRef}}}}
+		em.emitWorld(cr, "corpus-regression", shapes[3], w6, "")
 	}
 	defects := []string{"uid-mismatch", "missing-owner", "two-owners-above", "forbidden-top", "forbidden-direct", "user-annotation", "two-owner-refs"}
 	for i := 0; out.Len() < n; i++ {
@@ -815,6 +846,6 @@ func Run(dir string, seed uint64, n int, tier string) error {
 		}
 		em.emitWorld(r, origin, sh, w, defect)
 	}
-	out.Stats["rule"] = "worlds drawn from one splitmix64 stream: owner-chain shape (bare pod, Deployment>ReplicaSet, Job, StatefulSet, ReplicaSet, CRD, 6 skip-top-owner chains, pod-owned pod) x 1-3 sibling pods x labels/annotations/priority classes/defaults config map; every fifth world malformed (stale uid, missing owner, two owners, forbidden kinds, user-provided annotation); after a fixed corpus (every shape with 2 pods + the two refutation witnesses). Each world gives a CkGroup case (all reconcile orders, a run with repeats, runs with foreign updates) and a CkIdem case (repeated reconciles). non-trivial = at least one reconcile succeeded; distinct by (shape, pods, defect, check, config-map state, node-pool key configured)"
+	out.Stats["rule"] = "worlds drawn from one splitmix64 stream: owner-chain shape (bare pod, Deployment>ReplicaSet, Job, StatefulSet, ReplicaSet, CRD, 6 skip-top-owner chains, pod-owned pod) x 1-3 sibling pods x labels/annotations/priority classes/defaults config map; every fifth world malformed (stale uid, missing owner, two owners, forbidden kinds, user-provided annotation); after a fixed corpus (every shape with 2 pods + the witnesses of the three repaired findings: owner without labels, Workflow-owned pod, stale sub-group label, forbidden direct owner, owners carrying a pod-group-name annotation); 1 world in 25 gives its pods a stale sub-group label. Each world gives a CkGroup case (all reconcile orders, a run with repeats, runs with foreign updates) and a CkIdem case (repeated reconciles). non-trivial = at least one reconcile succeeded; distinct by (shape, pods, defect, check, config-map state, node-pool key configured)"
 	return out.Flush()
 }
